@@ -342,6 +342,7 @@ func (P) Generate(g *core.Gen) {
 	genWitnessReserve(g)
 	genSegwitInactive(g)
 	genFreeArea(g)
+	genMinHighEdge(g)
 }
 
 func genIndependent(g *core.Gen) {
@@ -782,5 +783,48 @@ func genFreeArea(g *core.Gen) {
 			s.minFree = 100000000
 		}
 		g.Case("free-area", true, s.line())
+	}
+}
+
+// genMinHighEdge: one transaction whose priority is exactly MinHighPriority
+// (the `<=` that switches to fee order versus the `<` that re-queues), among
+// transactions above and below it, with the priority area larger or smaller
+// than the block so far.
+func genMinHighEdge(g *core.Gen) {
+	for c := 0; c < g.N(30, 200); c++ {
+		pg := newPoolGen(g.R, 0)
+		edge := -1
+		for k, u := range pg.w.catalog {
+			if u.height == 5 && u.val == 57600000 && u.kind == 'T' {
+				edge = k
+			}
+		}
+		if edge < 0 {
+			panic("edge output missing")
+		}
+		pg.used[edge] = true
+		pg.add([]inRef{pg.ref(edge)}, []byte{'T'}, g.R.Range(0, 30000))
+		n := 2 + g.R.Intn(6)
+		for i := 0; i < n; i++ {
+			big := g.R.Bool()
+			k := pg.pick(func(u utxo) bool {
+				return pg.spendable(u) && (u.kind == 'T' || u.kind == 'K') && (u.val >= 100000000) == big
+			})
+			if k < 0 {
+				continue
+			}
+			pg.add([]inRef{pg.ref(k)}, pg.randKinds(1+g.R.Intn(2)), g.R.Range(0, 40000))
+		}
+		s := pg.finish(true)
+		run := int64(356 + s.cbw)
+		marks := []int64{run}
+		for _, t := range s.txs {
+			run += t.wt
+			marks = append(marks, run)
+		}
+		s.prioSize = uint32(g.R.Pick(marks[len(marks)-1]+1000, marks[g.R.Intn(len(marks))]+g.R.Range(-1, 1), 1000000))
+		s.minFree = g.R.Pick(0, 1000)
+		permute(s, g.R)
+		g.Case("minhigh-edge", true, s.line())
 	}
 }
